@@ -25,6 +25,15 @@ GRID = {
 LENS = [1, 1, 1, 2, 2, 3, 4, 5, 7, 8, 9, 15, 16, 17, 31, 32, 33, 40]
 
 
+def expand_db(dbspec):
+    """plan database -> {keyword bytes: [identifier bytes]} (through the repo's own JSON-database converter)"""
+    from toolkit.database_utils import convert_database_keyword_to_bytes
+    if "__huge__" in dbspec:
+        n = dbspec["__huge__"]
+        return {b"huge-keyword": [i.to_bytes(8, "big") for i in range(1, n + 1)], b"small": [b"\xee" * 8, b"\xef" * 8]}
+    return convert_database_keyword_to_bytes(dbspec)
+
+
 def same_result(got, want):
     if isinstance(got, (set, frozenset)):
         return set(got) == set(want) and len(got) == len(want)
@@ -56,6 +65,7 @@ class C09(P.Property):
         "recreate_before_first_search", "recreate_between_searches", "kept_object_whole_workflow", "server_restart_before_first_search",
         "server_restart_between_searches", "recreate_inside_cleanup_window", "absent_keyword", "near_miss_keyword", "nondefault_config",
         "stall_over_60s", "decoy_service", "decoy_other_config", "idle_connection", "op_failed_under_fault", "server_read_error", "client_object_kept_after_fault", "blocked_by_other_connection", "real_restart_new_interpreter"]
+    thorough_probe_names = ["huge_payload"]
 
     def setup(self):
         world.setup_frontend()
@@ -144,6 +154,10 @@ class C09(P.Property):
         elif rng.random() < 0.06:
             knobs["read_fault"] = {"search": rng.randrange(len(steps))}
         knobs["real_restart"] = rng.random() < 0.03
+        if tier == "thorough" and rng.random() < float(os.environ.get("VERIF_C09_HUGE_RATE", "0.0004")):
+            # a 12.6 MB index and 2 MB results (code paths only large payloads take: message splitting, frame limits)
+            knobs.update(scheme="CJJ14.PiBas", cfg_index=0, db={"__huge__": 180000}, decoy=False, stall=None, read_fault=None, blocker=None)
+            steps[:] = [dict(st, w=w_) for st, w_ in zip(steps[:4], ["huge-keyword", "small", "absent1", "huge-keyword"])]
         knobs["blocker"] = None
         if knobs["stall"] is None and knobs["read_fault"] is None and rng.random() < 0.06:
             knobs["blocker"] = {"search": rng.randrange(len(steps)), "hold": rng.choice([5, 30, 70, 70])}
@@ -185,7 +199,7 @@ class C09(P.Property):
         res.inconclusive = out.get("inconclusive")
         res.shape = P.shape_of((knobs["scheme"], knobs["cfg_index"], knobs["recreate"], knobs["restart_after_upload"], out["obs"]))
         res.nontrivial = (out.get("recreations", 0) + out.get("restarts", 0)) > 0 and out.get("answered", 0) > 0
-        res.trace = dict(scheme=knobs["scheme"], cfg=GRID[knobs["scheme"]][knobs["cfg_index"]], db_shape=[len(v) for v in knobs["db"].values()],
+        res.trace = dict(scheme=knobs["scheme"], cfg=GRID[knobs["scheme"]][knobs["cfg_index"]], db_shape=[(v if isinstance(v, int) else len(v)) for v in knobs["db"].values()],
                          observed=[list(map(str, o)) for o in out["obs"][:40]])
         return res
 
@@ -195,12 +209,14 @@ class C09(P.Property):
         scheme = knobs["scheme"]
         probes = out["probes"]
         probes["scheme_" + scheme] = 1
+        if "__huge__" in knobs["db"]:
+            probes["huge_payload"] = 1
         L, cfg = fe.default_config(scheme)
         cfg.update(GRID[scheme][knobs["cfg_index"]])
         default_cfg = knobs["cfg_index"] == 0
         if not default_cfg:
             probes["nondefault_config"] = 1
-        db = convert_database_keyword_to_bytes(knobs["db"])
+        db = expand_db(knobs["db"])
         if scheme == "CGKO06.SSE2":
             cfg["param_n"] = len({x for v in db.values() for x in v}) + knobs.get("sse2_spare", 0)  # a capacity, may be an over-estimate
         out["recreations"] = out["restarts"] = out["answered"] = 0
@@ -472,6 +488,8 @@ class C09(P.Property):
             if k.get(key) != val:
                 yield dict(plan, knobs=dict(k, **{key: val}))
         db = k["db"]
+        if "__huge__" in db:
+            return
         if len(db) > 1:
             for kw in list(db):
                 yield dict(plan, knobs=dict(k, db={a: b for a, b in db.items() if a != kw}))
@@ -486,7 +504,7 @@ class C09(P.Property):
 
     def finding_shape(self, plan, v):
         k = plan["knobs"]
-        lens = sorted(len(x) for x in k["db"].values())
+        lens = sorted((x if isinstance(x, int) else len(x)) for x in k["db"].values())
         n = sum(lens)
         pow2 = n > 0 and (n & (n - 1)) == 0
         if v.get("kind") == "SCHEME_RAISES":
